@@ -196,9 +196,13 @@ fn first_x<F: Float>(p: &Polygon<F>) -> F {
 }
 
 /// which: 0 = clipping empty, 1 = subject empty, 2 = both non-empty, boxes separated in x, 3 = separated in y
-pub fn trivial_result_body<F: AnyF, S: Src>(s: &mut S) {
-    let op = any_op(s);
-    let which = s.u8() % 4;
+pub fn trivial_result_body<F: AnyF, S: Src>(s: &mut S, which: u8, opcode: u8) {
+    let op = match opcode {
+        0 => Operation::Intersection,
+        1 => Operation::Difference,
+        2 => Operation::Union,
+        _ => Operation::Xor,
+    };
     let a = [pt::<F, S>(s), pt::<F, S>(s), pt::<F, S>(s)];
     let b = [pt::<F, S>(s), pt::<F, S>(s), pt::<F, S>(s)];
     // proper triangles (collapsed edges are the business of the fill_queue harnesses)
@@ -213,8 +217,7 @@ pub fn trivial_result_body<F: AnyF, S: Src>(s: &mut S) {
     if which == 3 {
         s.assume(bmin_y > amax_y);
     }
-    vcover!(which == 2 && op == Operation::Union, "disjoint-union");
-    vcover!(which == 0 && op == Operation::Difference, "minus-empty");
+    vcover!(a[0].x < a[1].x, "instance-reachable");
     let empty: MultiPolygon<F> = MultiPolygon(vec![]);
     let ma: MultiPolygon<F> = MultiPolygon(vec![pa]);
     let mb: MultiPolygon<F> = MultiPolygon(vec![pb]);
@@ -281,21 +284,65 @@ mod proofs {
     fq_harness!(fill_queue_triangle_f32, f32, 0);
     fq_harness!(fill_queue_clipping_f32, f32, 2);
 
+    // one instance per (situation, operation): 0 clipping empty, 1 subject empty, 2 boxes separated in x, 3 separated in y
+    macro_rules! tr_harness {
+        ($name:ident, $f:ty, $which:expr, $op:expr) => {
+            #[kani::proof]
+            #[kani::stub(robust::orient2d, orient2d_unreachable)]
+            #[kani::stub(super::super::super::fill_queue::fill_queue, fill_queue_by_contract)]
+            #[kani::stub(super::super::super::subdivide_segments::subdivide, subdivide_unreachable)]
+            #[kani::unwind(5)]
+            fn $name() {
+                trivial_result_body::<$f, _>(&mut KaniSrc, $which, $op);
+            }
+        };
+    }
+    tr_harness!(trivial_clip_empty_intersection_f64, f64, 0, 0);
+    tr_harness!(trivial_clip_empty_difference_f64, f64, 0, 1);
+    tr_harness!(trivial_clip_empty_union_f64, f64, 0, 2);
+    tr_harness!(trivial_clip_empty_xor_f64, f64, 0, 3);
+    tr_harness!(trivial_subj_empty_intersection_f64, f64, 1, 0);
+    tr_harness!(trivial_subj_empty_difference_f64, f64, 1, 1);
+    tr_harness!(trivial_subj_empty_union_f64, f64, 1, 2);
+    tr_harness!(trivial_subj_empty_xor_f64, f64, 1, 3);
+    tr_harness!(trivial_xsep_intersection_f64, f64, 2, 0);
+    tr_harness!(trivial_xsep_difference_f64, f64, 2, 1);
+    tr_harness!(trivial_xsep_union_f64, f64, 2, 2);
+    tr_harness!(trivial_xsep_xor_f64, f64, 2, 3);
+    tr_harness!(trivial_ysep_intersection_f64, f64, 3, 0);
+    tr_harness!(trivial_ysep_difference_f64, f64, 3, 1);
+    tr_harness!(trivial_ysep_union_f64, f64, 3, 2);
+    tr_harness!(trivial_ysep_xor_f64, f64, 3, 3);
+    tr_harness!(trivial_ysep_difference_f32, f32, 3, 1);
+    tr_harness!(trivial_xsep_union_f32, f32, 2, 2);
+}
+
+#[cfg(kani)]
+mod probe {
+    use super::*;
+    use super::super::order::orient2d_unreachable;
+
+    // cost probes (not registered anywhere)
     #[kani::proof]
-    #[kani::stub(robust::orient2d, orient2d_unreachable)]
-    #[kani::stub(super::super::super::fill_queue::fill_queue, fill_queue_by_contract)]
-    #[kani::stub(super::super::super::subdivide_segments::subdivide, subdivide_unreachable)]
     #[kani::unwind(6)]
-    fn trivial_result_f64() {
-        trivial_result_body::<f64, _>(&mut KaniSrc);
+    fn probe_construct_only() {
+        let s = &mut KaniSrc;
+        let a = [pt::<f64, _>(s), pt::<f64, _>(s), pt::<f64, _>(s)];
+        let pa = Polygon::new(ring(a), vec![]);
+        let ma: MultiPolygon<f64> = MultiPolygon(vec![pa]);
+        assert!(ma.0.len() == 1);
+        std::mem::forget(ma);
     }
 
     #[kani::proof]
-    #[kani::stub(robust::orient2d, orient2d_unreachable)]
-    #[kani::stub(super::super::super::fill_queue::fill_queue, fill_queue_by_contract)]
-    #[kani::stub(super::super::super::subdivide_segments::subdivide, subdivide_unreachable)]
     #[kani::unwind(6)]
-    fn trivial_result_f32() {
-        trivial_result_body::<f32, _>(&mut KaniSrc);
+    fn probe_clone_only() {
+        let s = &mut KaniSrc;
+        let a = [pt::<f64, _>(s), pt::<f64, _>(s), pt::<f64, _>(s)];
+        let pa = Polygon::new(ring(a), vec![]);
+        let v = vec![pa];
+        let r: MultiPolygon<f64> = MultiPolygon(Vec::from(v.as_slice()));
+        assert!(r.0.len() == 1 && r.0[0].exterior().0[1] == a[1]);
+        std::mem::forget((r, v));
     }
 }
